@@ -6,7 +6,8 @@ Open Scope Z_scope.
 (* per task: wait flag, refused attempts, attempts, how its call ended (0 entered and left, 1 LockedError, 2 cancelled, 3 never ended) *)
 (* a trace element: a lock command (with what it returned), or the start / end of a guarded body *)
 Inductive tev := E (e : event) | SecIn (i : nat) | SecOut (i : nat).
-Inductive case := CLock (traces : list (list (tev * bool))) (policy : list (bool * nat * nat * nat)).
+(* per is_locked call of the probing task: rounds it may take at most (ceil(wait/step); 0 for the plain form), what its polls saw, what it returned *)
+Inductive case := CLock (traces : list (list (tev * bool))) (policy : list (bool * nat * nat * nat)) (probes : list (nat * list bool * bool)).
 
 Fixpoint replay (c : cfg) (tr : list (tev * bool)) : bool :=
   match tr with
@@ -41,7 +42,17 @@ Fixpoint ok_lock (now : Z) (inside : list (nat * Z * Z)) (holder : option (nat *
       Bool.eqb r mine &&
       ok_lock now (filter (fun x => negb (Nat.eqb (fst (fst x)) i)) inside) (if mine then None else holder) rest
   | (E (ForeignUnlock _), r) :: rest => negb r && ok_lock now inside holder rest     (* a foreign token releases nothing *)
+  | (E Probe, r) :: rest =>                                         (* is_locked: true iff some holder's ttl is still running *)
+      Bool.eqb r (match holder with Some (_, d) => now <? d | None => false end) && ok_lock now inside holder rest
   end.
+
+(* is_locked(wait, step): polls while the wait lasts, answers False at the first poll that finds the key absent, and
+   otherwise decides by one last poll once the wait is used up: n + 1 polls, never more *)
+Definition ok_probe (p : nat * list bool * bool) : bool :=
+  let '(n, polls, r) := p in
+  Bool.eqb r (forallb (fun b => b) polls) &&
+  (if r then Nat.eqb (length polls) (S n)
+   else Nat.leb 1 (length polls) && Nat.leb (length polls) (S n) && forallb (fun b => b) (removelast polls) && negb (last polls true)).
 
 (* waiting policy: a waiting caller is never turned away (it keeps attempting until it acquires); a caller that does
    not wait is turned away by its first refused attempt and never enters afterwards *)
@@ -55,7 +66,7 @@ Definition ok_policy (p : bool * nat * nat * nat) : bool :=
 
 Definition judge (c : case) : verdict :=
   match c with
-  | CLock traces policy => (forallb (replay init) traces, forallb (ok_lock 0 [] None) traces && forallb ok_policy policy, [])
+  | CLock traces policy probes => (forallb (replay init) traces, forallb (ok_lock 0 [] None) traces && forallb ok_policy policy && forallb ok_probe probes, [])
   end.
 Definition explain (c : case) :=
-  match c with CLock traces _ => map (fun tr => snd (fold_left (fun cr e => let '(c, rs) := cr in match fst e with E ev => let '(c', r) := step c ev in (c', rs ++ [r]) | _ => (c, rs ++ [true]) end) tr (init, []))) traces end.
+  match c with CLock traces _ _ => map (fun tr => snd (fold_left (fun cr e => let '(c, rs) := cr in match fst e with E ev => let '(c', r) := step c ev in (c', rs ++ [r]) | _ => (c, rs ++ [true]) end) tr (init, []))) traces end.
